@@ -1,6 +1,6 @@
 //! C03 — shard count is unobservable: N shards answer exactly like one shard, whichever
 //! internal path (generic / fast / pooled / batch) touches a key.
-use crate::c01::{canon_score, kind, parse_argv, EPOCH_MS};
+use crate::c01::{canon_score, kind, kind as kind_of, parse_argv, EPOCH_MS};
 use crate::common::*;
 use crate::gen::{self, Argv};
 use crate::myresp::{self, Tree};
@@ -45,7 +45,15 @@ pub enum Op {
     /// a pipeline batch of plain GETs / SETs through the batch entry points
     BatchGet(Vec<Vec<u8>>),
     BatchSet(Vec<(Vec<u8>, Vec<u8>)>),
+    /// scripting: kind in {eval, load, evalsha, flush, exists}, script index, key, argument
+    Script(String, usize, Vec<u8>, Vec<u8>),
 }
+
+const SCRIPTS: [&str; 3] = [
+    "return redis.call('GET', KEYS[1])",
+    "return redis.call('INCR', KEYS[1])",
+    "redis.call('SET', KEYS[1], ARGV[1]); return redis.call('GET', KEYS[1])",
+];
 
 fn b(s: &str) -> Vec<u8> {
     s.as_bytes().to_vec()
@@ -197,6 +205,7 @@ fn op_json(o: &Op) -> Value {
         Op::ScanWalk(p) => json!({"scanwalk": p.as_ref().map(|x| lossy(x))}),
         Op::BatchGet(k) => json!({"batch_get": k.iter().map(|x| lossy(x)).collect::<Vec<_>>()}),
         Op::BatchSet(p) => json!({"batch_set": p.iter().map(|(k, v)| vec![lossy(k), lossy(v)]).collect::<Vec<_>>()}),
+        Op::Script(kind, i, k, a) => json!({"script": kind, "index": i, "key": lossy(k), "arg": lossy(a)}),
     }
 }
 
@@ -214,6 +223,8 @@ fn op_from(v: &Value) -> Op {
         Op::Advance(ms.as_i64().unwrap_or(0))
     } else if let Some(p) = v.get("scanwalk") {
         Op::ScanWalk(p.as_str().map(unlossy))
+    } else if let Some(kind) = v.get("script") {
+        Op::Script(kind.as_str().unwrap_or("eval").to_string(), v["index"].as_u64().unwrap_or(0) as usize, unlossy(v["key"].as_str().unwrap_or("")), unlossy(v["arg"].as_str().unwrap_or("")))
     } else if let Some(k) = v.get("batch_get") {
         Op::BatchGet(k.as_array().unwrap().iter().map(|x| unlossy(x.as_str().unwrap())).collect())
     } else {
@@ -243,6 +254,7 @@ async fn run(ops: &[Op], n: usize, mut seen: impl FnMut(&str, &Path, &str)) -> O
     let (one, t1) = new_state(1);
     let (many, tn) = new_state(n);
     let mut last_write: BTreeMap<Vec<u8>, Path> = BTreeMap::new();
+    let mut shas: BTreeMap<usize, String> = BTreeMap::new();
     for (i, op) in ops.iter().enumerate() {
         match op {
             Op::Advance(ms) => {
@@ -255,6 +267,35 @@ async fn run(ops: &[Op], n: usize, mut seen: impl FnMut(&str, &Path, &str)) -> O
                 seen("SCANWALK", &Path::Generic, &kind(&a));
                 if a != bq {
                     return Some(Found { sig: "C03|SCAN-walk|keys-differ".into(), detail: format!("full SCAN walk: 1 shard {:?}, {} shards {:?}", a, n, bq), at: i });
+                }
+            }
+            Op::Script(kind, si, key, arg) => {
+                let script = SCRIPTS[*si % SCRIPTS.len()].as_bytes().to_vec();
+                let sha = shas.get(si).cloned().unwrap_or_else(|| "f".repeat(40));
+                let a: Argv = match kind.as_str() {
+                    "eval" => vec![b("EVAL"), script, b("1"), key.clone(), arg.clone()],
+                    "load" => vec![b("SCRIPT"), b("LOAD"), script],
+                    "evalsha" => vec![b("EVALSHA"), sha.clone().into_bytes(), b("1"), key.clone(), arg.clone()],
+                    "exists" => vec![b("SCRIPT"), b("EXISTS"), sha.clone().into_bytes()],
+                    _ => vec![b("SCRIPT"), b("FLUSH")],
+                };
+                let r1 = run_cmd(&one, &a, &Path::Generic).await;
+                let rn = run_cmd(&many, &a, &Path::Generic).await;
+                seen(&format!("SCRIPT:{}", kind), &Path::Generic, &kind_of(&r1));
+                if kind == "load" {
+                    if let Tree::Bulk(Some(h)) = &r1 {
+                        shas.insert(*si, String::from_utf8_lossy(h).to_string());
+                    }
+                }
+                if r1 != rn {
+                    return Some(Found {
+                        sig: format!("C03|SCRIPT:{}|reply-differs", kind),
+                        detail: format!("step {} {:?}: 1 shard {:?}, {} shards {:?}", i, a.iter().map(|x| lossy(x)).collect::<Vec<_>>(), r1, n, rn),
+                        at: i,
+                    });
+                }
+                if kind == "eval" || kind == "evalsha" {
+                    last_write.insert(key.clone(), Path::Generic);
                 }
             }
             Op::BatchGet(keys) => {
@@ -344,6 +385,7 @@ async fn run(ops: &[Op], n: usize, mut seen: impl FnMut(&str, &Path, &str)) -> O
                     Op::BatchSet(_) => ("SET(batch)".to_string(), false),
                     Op::BatchGet(_) => ("GET(batch)".to_string(), false),
                     Op::ScanWalk(_) => ("SCAN-walk".to_string(), false),
+                    Op::Script(k, _, _, _) => (format!("SCRIPT:{}", k), false),
                     Op::Advance(_) => ("advance".to_string(), false),
                 };
                 let sig = if multi {
@@ -375,6 +417,10 @@ fn gen_ops(rng: &mut Rng, len: usize) -> Vec<Op> {
             2 => ops.push(Op::ScanWalk(if rng.gen_bool(0.5) { None } else { Some(b(["k*", "*", "{t}*", "?"][rng.gen_range(0..4)])) })),
             3 => ops.push(Op::BatchGet((0..rng.gen_range(1..5)).map(|_| b(keypool[rng.gen_range(0..keypool.len())])).collect())),
             4 => ops.push(Op::BatchSet((0..rng.gen_range(1..5)).map(|_| (b(keypool[rng.gen_range(0..keypool.len())]), gen::pick(rng, &["v1", "10", "", "x y"]))).collect())),
+            5 if cfg!(feature = "lua") => {
+                let kind = ["eval", "load", "evalsha", "evalsha", "flush", "exists"][rng.gen_range(0..6)].to_string();
+                ops.push(Op::Script(kind, rng.gen_range(0..SCRIPTS.len()), b(keypool[rng.gen_range(0..keypool.len())]), gen::pick(rng, &["1", "x"])));
+            }
             5..=12 => {
                 // plain GET/SET through a chosen entry path
                 let k = b(keypool[rng.gen_range(0..keypool.len())]);
